@@ -336,3 +336,51 @@ N('teardown-early-exit-order', [(TD, '''    // skip verification if the thread p
     }
 
     if Arc::strong_count(&unimock.shared_state) > 1 {''')])
+
+# ---- fourth batch: output conversions, verify, error rendering ----------------------------------------------------------------
+DOPT = 'src/output/deep/option.rs'
+DVEC = 'src/output/deep/vec.rs'
+DRES = 'src/output/deep/result.rs'
+N('deep-option-output-map', [(DOPT, '''            Self::Some(val) => Some(Some(val.output()?)),
+            Self::None => Some(None),''', '''            Self::Some(val) => val.output().map(Some),
+            Self::None => Some(None),''')])
+N('deep-option-into-map', [(DOPT, '''            Some(val) => Ok(AsReturn::Some(val.into_return()?)),
+            None => Ok(AsReturn::None),''', '''            None => Ok(AsReturn::None),
+            Some(val) => val.into_return().map(AsReturn::Some),''')])
+N('deep-vec-output-collect', [(DVEC, '''        let mut out = Vec::new();
+        for el in self.0.iter() {
+            out.push(el.output()?);
+        }
+
+        Some(out)''', '''        self.0.iter().map(|el| el.output()).collect()''')])
+N('deep-vec-output-capacity', [(DVEC, '''        let mut out = Vec::new();
+        for el in self.0.iter() {''', '''        let mut out = Vec::with_capacity(self.0.len());
+        for el in self.0.iter() {''')])
+N('deep-result-output-map', [(DRES, '''            Self::Ok(val) => Some(Ok(val.output()?)),
+            Self::Err(val) => Some(Err(val.output()?)),''', '''            Self::Ok(val) => val.output().map(Ok),
+            Self::Err(val) => val.output().map(Err),''')])
+N('verify-guard-flip', [(LIB, '''        if !self.original_instance {
+            panic!("Called verify() on a cloned instance. Verify the original instance instead.");
+        }
+
+        teardown::teardown_panic(&mut self);''', '''        if self.original_instance {
+            teardown::teardown_panic(&mut self);
+        } else {
+            panic!("Called verify() on a cloned instance. Verify the original instance instead.");
+        }''')])
+N('teardown-panic-join', [(TD, '''        let error_strings = errors
+            .iter()
+            .map(<MockError as ToString>::to_string)
+            .collect::<Vec<_>>();
+        panic!("{}", error_strings.join("\\n"));''', '''        let mut message = crate::alloc::String::new();
+        for (index, error) in errors.iter().enumerate() {
+            if index > 0 {
+                message.push('\\n');
+            }
+            message.push_str(&error.to_string());
+        }
+        panic!("{}", message);''')])
+N('rename-quantify', [('re:src', r'\bpush_returner_result\b', 'push_returner')])
+N('rename-assembler-field', [('re:src', r'\bcurrent_call_index\b', 'next_ordered_slot')])
+N('rename-shared-field', [('re:src', r'\bpanic_reasons\b', 'recorded_errors')])
+N('rename-counter-field', [('re:src', r'\bactual_count\b', 'matched')])
